@@ -241,6 +241,35 @@ func init() {
 		call(fr.i, fr, 0, a[0], nil)
 		return tuple{"", false}
 	}
+	// verifBounded(f func(), maxDepth int, maxSteps int) (completed bool): run f with a call-depth and an
+	// instruction bound of its own (relative to the call site).  Exhausting either bound abandons f (target
+	// defers do not run) and yields false instead of aborting the path, so that a harness can assert
+	// termination of the real code on a finite input.  Native twin: f is first run in a child process under
+	// a wall-clock limit.
+	H["verifBounded"] = func(fr *frame, a []value) (res value) {
+		i := fr.i
+		saveD, saveS, base := i.boundDepth, i.boundSteps, i.depth
+		d, s := i.depth+int(asInt64(a[1])), i.steps+asInt64(a[2])
+		if saveD == 0 || d < saveD {
+			i.boundDepth = d
+		}
+		if saveS == 0 || s < saveS {
+			i.boundSteps = s
+		}
+		defer func() {
+			i.boundDepth, i.boundSteps = saveD, saveS
+			if r := recover(); r != nil {
+				if pa, ok := r.(pathAbort); ok && pa.kind == "bound" && saveD == 0 && saveS == 0 {
+					i.depth = base
+					res = false
+					return
+				}
+				panic(r)
+			}
+		}()
+		call(i, fr, 0, a[0], nil)
+		return true
+	}
 	// verifUseRepl(names...): activate the verifRepl_<name> replacements for this path
 	H["verifUseRepl"] = func(fr *frame, a []value) value {
 		for _, n := range fr.i.ex.strs(strSlice(a[0])) {
@@ -248,9 +277,35 @@ func init() {
 		}
 		return nil
 	}
+	// verifSetMapOrder(k): k > 0 the k-th permutation for every later map range, 0 insertion order,
+	// k == -1 every later map range (>= 2 entries) forks over its iteration orders (one decision per range),
+	// k == -2-i only the i-th such range does
 	H["verifSetMapOrder"] = func(fr *frame, a []value) value {
 		fr.i.ex.mapOrder = int(asInt64(a[0]))
+		fr.i.ex.mapPermuted = 0
+		fr.i.ex.mapSeen = 0
 		return nil
+	}
+	// verifRecord(label, v): records the concrete int v computed on this path as an input and returns it;
+	// the native twin returns the recorded value (for facts the native run cannot reproduce, e.g. the
+	// effect of one specific map iteration order)
+	H["verifRecord"] = func(fr *frame, a []value) value {
+		n := int(asInt64(a[1]))
+		fr.i.ex.events = append(fr.i.ex.events, inputDecl{Name: fr.i.ex.concStr(a[0]), Kind: "choose", Value: strconv.Itoa(n)})
+		return n
+	}
+	// verifMapRangesSeen(): map ranges of >= 2 entries executed since the last verifSetMapOrder(k < 0)
+	H["verifMapRangesSeen"] = func(fr *frame, a []value) value {
+		n := fr.i.ex.mapSeen
+		fr.i.ex.events = append(fr.i.ex.events, inputDecl{Name: "map-ranges-seen", Kind: "choose", Value: strconv.Itoa(n)})
+		return n
+	}
+	// verifMapRangesPermuted(): how many map ranges since the last verifSetMapOrder ran in a non-insertion
+	// order; recorded as an input so that the native twin takes the same harness branch
+	H["verifMapRangesPermuted"] = func(fr *frame, a []value) value {
+		n := fr.i.ex.mapPermuted
+		fr.i.ex.events = append(fr.i.ex.events, inputDecl{Name: "map-ranges-permuted", Kind: "choose", Value: strconv.Itoa(n)})
+		return n
 	}
 	H["verifNative"] = func(fr *frame, a []value) value { return false }
 	H["verifEvent"] = func(fr *frame, a []value) value {
